@@ -19,4 +19,5 @@ CHECK = {'title': "Every PWM value written while regulating stays inside the fan
  'level_note': 'bounded by the listed configurations and alphabets; PID memory is real-valued so only depth-bounded; cmd fans are covered by C09/C19 '
                'harnesses, not here',
  'runs': [{'pkg': 'internal/controller', 'test': 'TestVX_C01', 'shards_quick': 16, 'shards_thorough': 16},
-          {'pkg': 'internal/controller', 'test': 'TestVX_C01sweep', 'shards_quick': 8, 'shards_thorough': 16}]}
+          {'pkg': 'internal/controller', 'test': 'TestVX_C01sweep', 'shards_quick': 8, 'shards_thorough': 16},
+          {'pkg': 'internal/controller', 'test': 'TestVX_C01pair', 'shards_quick': 8, 'shards_thorough': 8}]}
